@@ -630,16 +630,22 @@ Proof. exact repair_key_old_code_refuted. Qed.
    EndOfOriginalArchiveData, nothing unfinished; the block list of the new (finalized, well-formed) writer holds under every given
    name exactly the given bytes; exit status 0 iff the new archive's layers accept the stream.  PARTIAL: sources with the compression
    layer are not covered, and re-reading the new archive's BYTES through the Reader is not proved here (Tie B compares it) *)
-(* statement = CliRepairIntact.repair_intact_plain (fixlimits: it now carries the premise that the repair
-   did not end in SerializationError, `repair ... (Cursor (w_out sf)) fuel 0 w_init <> Err EDeser`: the footer
-   of the repaired archive fits BINCODE_MAX_DESERIALIZE) *)
-Theorem C17_repair_intact_preserves_files_partial : ltac:(let t := type of repair_intact_plain in exact t).
-Proof. exact repair_intact_plain. Qed.
+(* statement = RepairSize2Cli.repair_intact_plain_size = CliRepairIntact.repair_intact_plain with its premise on the
+   RESULT (the repair did not end in SerializationError) replaced by a premise on the SIZE OF THE INPUT:
+   `8 + 3 * len (w_out sf) <= N.min LIMIT (2 ^ 32 - 1)`, w_out sf = the block stream behind the header that repair reads
+   (RepairSize.repair_footer_fits: the footer of the repaired archive takes at most 8 + 3 * (input bytes) bytes; production
+   LIMIT: inputs up to ~170 MiB) *)
+From MLA Require RepairSize2Cli.
+Theorem C17_repair_intact_preserves_files_partial : ltac:(let t := type of RepairSize2Cli.repair_intact_plain_size in exact t).
+Proof. exact RepairSize2Cli.repair_intact_plain_size. Qed.
 
 (* the same for a source with the encryption layer, both modes of the fail-safe decryptor *)
-(* statement = CliRepairIntact.repair_intact_enc (fixlimits: carries the premise that the repair did not end in SerializationError) *)
-Theorem C17_repair_intact_preserves_files_enc_partial : ltac:(let t := type of repair_intact_enc in exact t).
-Proof. exact repair_intact_enc. Qed.
+(* statement = RepairSize2Cli.repair_intact_enc_size = CliRepairIntact.repair_intact_enc with the SerializationError premise
+   replaced by the size premise on the ENCRYPTED block stream the fail-safe decryptor reads:
+   `8 + 3 * len (enc_format CHUNK ks tagc (w_out sf)) <= N.min LIMIT (2 ^ 32 - 1)` (the decryptor delivers no more than the
+   ciphertext holds, RepairSize2.len_fs_output_le) *)
+Theorem C17_repair_intact_preserves_files_enc_partial : ltac:(let t := type of RepairSize2Cli.repair_intact_enc_size in exact t).
+Proof. exact RepairSize2Cli.repair_intact_enc_size. Qed.
 
 (* to-tar and paths the tar crate refuses (since repair 6302e72 add_file_to_tar tries the path on a scratch builder first).
    For ANY member list: the tarball is tar_of of the accepted members only — the independent reader returns exactly the members
@@ -824,6 +830,22 @@ Proof.
     intros; apply Permutation_refl.
 Qed.
 
+(* the premises of C17_repair_intact_preserves_files_partial on this instance — the SIZE premise included:
+   8 + 3 * |block stream of the archive| <= min LIMIT (2^32 - 1) *)
+Example C17_nonvacuous_repair_intact_premises :
+  wc_encrypt x17_plain = false /\ wc_compress x17_plain = false /\
+  (forall n d, In (n, d) x17_files -> len d < 2 ^ 64) /\ w_next (fst x17_run) < 2 ^ 64 /\
+  0 < len (w_out (fst x17_run)) /\
+  8 + 3 * len (w_out (fst x17_run)) <= N.min ex3_LIMIT (2 ^ 32 - 1).
+Proof.
+  split; [reflexivity|]. split; [reflexivity|]. split; [|split; [|split]].
+  - intros n d Hin. unfold x17_files in Hin. cbn [In] in Hin.
+    destruct Hin as [E|[E|[E|[E|[]]]]]; injection E as <- <-; vm_compute; reflexivity.
+  - vm_compute. reflexivity.
+  - vm_compute. reflexivity.
+  - vm_compute. discriminate.
+Qed.
+
 Ltac member_ok_tac :=
   match goal with |- member_ok (?n, ?d) =>
     split; [ let r := eval vm_compute in (prepare_path (tar_path n)) in
@@ -874,6 +896,7 @@ Example C17_example_repair_refuses_key :
 Proof. repeat split; vm_compute; reflexivity. Qed.
 
 Print Assumptions C17_nonvacuous_made_by_create.
+Print Assumptions C17_nonvacuous_repair_intact_premises.
 Print Assumptions C17_nonvacuous_member_ok.
 Print Assumptions C17_example_create_list.
 Print Assumptions C17_example_cat.
